@@ -1119,3 +1119,84 @@ func c14r10(rc *core.RC) {
 		rc.Unknown("vm/interface-handlers-typ", token.NoPos, "found %d OpInterface handlers with a dynamic-type variable", n)
 	}
 }
+
+// ---- C14.R11 a copy of the type table copies each entry's own value ----
+
+// The slow-path caches (types whose descriptors lie outside the linker's range: reflect.StructOf and friends) are
+// maps replaced copy-on-write: a new map is filled from the old one and the new entry is added. The copying loop has
+// to store, under each old key, that key's old value. Storing the decoder that is being inserted under every key
+// re-binds all earlier run-time types to the newest decoder, which then runs over values of the other types.
+func c14r11(rc *core.RC) {
+	p := rc.P
+	n := 0
+	for _, pk := range []string{"decoder", "encoder"} {
+		for _, fd := range p.Funcs(pk) {
+			if fd.Body == nil {
+				continue
+			}
+			info := p.Info(fd)
+			fn := p.FuncName(fd)
+			// copy-on-write publication: the function stores the new table with atomic.StorePointer
+			publishes := false
+			ast.Inspect(fd.Body, func(m ast.Node) bool {
+				if c, ok := m.(*ast.CallExpr); ok && core.CalleeName(info, c) == "sync/atomic.StorePointer" || ok && core.CalleeName(info, c) == "atomic.StorePointer" {
+					publishes = true
+				}
+				return true
+			})
+			if !publishes {
+				continue
+			}
+			k := 0
+			ast.Inspect(fd.Body, func(m ast.Node) bool {
+				rs, ok := m.(*ast.RangeStmt)
+				if !ok || rs.Key == nil {
+					return true
+				}
+				if t := info.TypeOf(rs.X); t == nil {
+					return true
+				} else if _, isMap := t.Underlying().(*types.Map); !isMap {
+					return true
+				}
+				keyObj := core.ObjOf(info, rs.Key)
+				var valObj types.Object
+				if rs.Value != nil {
+					valObj = core.ObjOf(info, rs.Value)
+				}
+				for _, st := range rs.Body.List {
+					as, isAs := st.(*ast.AssignStmt)
+					if !isAs || len(as.Lhs) != 1 || len(as.Rhs) != 1 || as.Tok != token.ASSIGN {
+						continue
+					}
+					ix, isIx := core.Unparen(as.Lhs[0]).(*ast.IndexExpr)
+					if !isIx || core.ObjOf(info, ix.Index) != keyObj || keyObj == nil {
+						continue
+					}
+					if t := info.TypeOf(ix.X); t == nil {
+						continue
+					} else if _, isMap := t.Underlying().(*types.Map); !isMap {
+						continue
+					}
+					k++
+					n++
+					rc.Touch(fn)
+					key := fmt.Sprintf("%s/map-copy#%d each-key-keeps-its-value", fn, k)
+					good := false
+					r := core.Unparen(as.Rhs[0])
+					if valObj != nil && core.ObjOf(info, r) == valObj {
+						good = true
+					}
+					// m2[k] = m[k]
+					if rix, isR := r.(*ast.IndexExpr); isR && core.ObjOf(info, rix.Index) == keyObj && core.ObjOf(info, rix.X) == core.ObjOf(info, rs.X) {
+						good = true
+					}
+					rc.Check(good, key, as.Pos(), "the loop that copies the table stores under each key the value that key had (found: %s = %s): a value from outside the loop gives every earlier type the same compiled program, the newest one", core.Src(p.Fset, as.Lhs[0]), core.Src(p.Fset, r))
+				}
+				return true
+			})
+		}
+	}
+	if n < 1 {
+		rc.Unknown("module/table-copies", token.NoPos, "no loop that copies a map key by key found in decoder or encoder (confirmed: decoder.storeDecoder)")
+	}
+}
